@@ -31,8 +31,11 @@ def main(argv):
     try:
         FlowCal = core.import_flowcal()
         mod = importlib.import_module('rv.props.' + prop.lower())
-        mod.run(ctx)
+        from rv import reach
+        with reach.ReachCounter(core.repo_root()) as rc:
+            mod.run(ctx)
         res = ctx.result()
+        res['reach'] = rc.entered
         res['flowcal_file'] = FlowCal.__file__
         res['status'] = 'ok'
     except BaseException as e:   # harness failure => inconclusive, never "held"
